@@ -223,8 +223,8 @@ def one_instance(ctx, m, tag, mult, in_dtype, all_perms, layout=None):
             tours.append(t)
     nonconst = len({m[i][j] for i in range(n) for j in range(n)
                     if i != j}) > 1
+    x = space.create()          # one point buffer, overwritten in place
     for t in tours:
-        x = space.create()
         x[:] = t
         ctx.case()
         ctx.count("tour_evaluations")
